@@ -204,6 +204,17 @@ CLAIMS["C04"] = dict(
     note="Transaction / Operation / Fragment are structural models with the variant list cross-checked against the source; <=1 updated and <=1 removed fragment per side.",
 )
 
+CLAIMS["C39"] = dict(
+    engine="kani-transplant",
+    technique="bounded symbolic execution of the MemWAL conflict rules (TransactionRebase::check_update_mem_wal_state_txn and its same-MemWAL helper, via check_txn) with Kani+CBMC over symbolic MemWAL ids and operation kinds",
+    text=("Decides the last clause of the property as one commit step: an UpdateMemWalState transaction rebased over a committed one is rejected as incompatible "
+          "exactly when both add or update the same MemWAL (<=1 added and <=1 updated per side), trims and changes to different MemWALs pass, and every data-changing "
+          "operation committed in between is incompatible. The per-region generation numbering and forward-only state transitions live in "
+          "update_mem_wal_index_in_indices_list / mem_wal.rs (index metadata, protobuf details) and are NOT claimed; nor is it claimed that commit_transaction applies "
+          "the rule to every concurrent transaction."),
+    note="MemWal is modelled by its id; same structural models as C04.",
+)
+
 _IO = "truth lives in async object-store/tokio orchestration (crash points, interleavings, listings); Kani/CBMC has no model of tokio or object_store and no pure kernel implies the statement"
 NOT_APPLICABLE.update({
     "C01": "commit atomicity over crash points: " + _IO,
@@ -226,7 +237,6 @@ NOT_APPLICABLE.update({
     "C25": "the whole encoder/decoder stack with async scheduling; its integer leaf kernels are claimed under C26-C28",
     "C31": "ObjectWriter::poll_write is a hand-written AsyncWrite state machine over object_store multipart futures and a JoinSet; buffering arithmetic is not separable from polling",
     "C38": "cache transparency is a history property over moka caches, Arc<dyn Any> and I/O",
-    "C39": "MemWAL state machine under concurrency: the conflict rules sit in TransactionRebase over Transaction/IndexMetadata/MemWal (lance crate, HashMap/Vec/String heavy) and the property quantifies over interleavings of commits: " + _IO,
     "C40": "Arrow helpers take and return ArrayRef/RecordBatch (Arc<dyn Array>, buffers, downcast dispatch); JSONB parsing is in the jsonb crate; CBMC cannot carry arrow-rs arrays",
     "C42": "relocatability is a statement about every path written by every writer being relative; decided by I/O",
 })
